@@ -478,11 +478,27 @@ def stepMulti (line : String) : String :=
     | _ => "bad-op"
   | _ => "bad-op"
 
+/-- `fn <variant> <script>`: assignment to a func-typed variable is seen by every later call -/
+def stepFn (f : List String) : String :=
+  match f with
+  | [variant, script] =>
+    if !(["r1", "a1", "r0", "a0"].contains variant) || script.isEmpty then "bad-op" else
+    let (ok, _, outs) := script.toList.foldl (fun (acc : Bool × Nat × List String) ch =>
+      let (ok, cur, outs) := acc
+      match ch with
+      | 'a' => (ok, 1, outs)
+      | 'b' => (ok, 2, outs)
+      | 'c' | 'd' | 'e' => (ok, cur, outs ++ [toString cur])
+      | _ => (false, cur, outs)) (true, 1, [])
+    if ok then " ".intercalate outs else "bad-op"
+  | _ => "bad-op"
+
 def step (s : Unit) (line : String) : Unit × String :=
   match (line.splitOn " ").filter (· != "") with
   | "st" :: rest => (s, stepSt rest)
   | "multi" :: _ => (s, stepMulti line)
   | "seq" :: _ => (s, stepMulti line)
+  | "fn" :: rest => (s, stepFn rest)
   | [] => (s, "bad-op")
   | _ => (s, "bad-op")
 
